@@ -272,6 +272,14 @@ def add_trashed(steps, tdir, name, path_value, date, kind='file', info_content=N
         steps.append(['f', p + '/member', 'm-' + tag, 0o644, 1_200_000_000 + len(steps)])
     elif kind == 'link':
         steps.append(['l', p, '/home/u/aux/linktarget-' + tag])
+    elif kind == 'link_absdir':
+        # a trashed symlink whose (absolute) target is an existing directory that was never trashed
+        steps.append(['d', '/home/u/aux/livedir-' + tag, 0o755])
+        steps.append(['f', '/home/u/aux/livedir-' + tag + '/keep', 'still in use', 0o644])
+        steps.append(['l', p, '/home/u/aux/livedir-' + tag])
+    elif kind == 'link_absfile':
+        steps.append(['f', '/home/u/aux/livefile-' + tag, 'still in use', 0o644])
+        steps.append(['l', p, '/home/u/aux/livefile-' + tag])
     elif kind == 'none':
         pass
     steps.append(['f', tdir + '/info/' + name + '.trashinfo',
